@@ -31,5 +31,7 @@ func IteF(c bool, a, b float64) float64        { return a }
 func IteU64(c bool, a, b uint64) uint64        { return a }
 func HalfToFloat64(h uint16) float64            { return 0 }
 
+func JSONMsg(v any) []byte                    { return nil }
+
 func cellCut(b []byte, cell, headerBytes int) int { return cell }
 func cellCount(b []byte, headerBytes int) int { return len(b) }
